@@ -65,6 +65,8 @@ def run(chk):
     import interp
     c16.rule_dimension_total(chk, interp.Interp(f), prefix="C08.sibling")
     rule_errors(chk, comp)
+    rule_strslice(chk, reach)
+    rule_admitted_kinds(chk)
 
 
 def rule_unimpl(chk, reach):
@@ -158,6 +160,8 @@ def rule_arith(chk, reach):
                 continue
             if kind == "OverflowNeg" and locs and M.known_nonnegative(cfg, locs[0]):
                 continue
+            if kind.startswith(("Overflow(Add)", "Overflow(Sub)", "Overflow(Mul)")) and " via " not in kind and M.bounded_by_bool_cast(cfg, ops):
+                continue      # (bool as int) op small constant cannot overflow
             sites.append((ln or 0, kind.split(" via ")[0]))
         for i, (ln, kind) in enumerate(sorted(sites)):
             fn = short(owner)
@@ -318,3 +322,158 @@ def rule_errors(chk, comp):
             ok = inspected and not unwrapped
         chk.ob("C08.errors/%s" % s, ok, "result is matched, the error is rendered" if ok else
                "the result of %s is unwrapped or ignored instead of being turned into CompileError::Text" % s, where(comp))
+
+
+# ------------------------------------------------------------------ str slicing
+
+def rule_strslice(chk, reach):
+    """`&text[a..b]` on a str aborts when a or b falls inside a multi-byte character, and source files contain
+    arbitrary UTF-8 (comments, strings). Every str range-index in the library crates must have bounds that are
+    character boundaries by construction: 0, len(), the position returned by find / rfind (plus the length of an ASCII
+    needle), the argument of a split_at that has already succeeded, sums of such a position with a position inside the
+    split-off remainder - never a position plus an arbitrary byte count (min / max / + n)."""
+    f = chk.facts
+    n = 0
+    for b in f.bodies.values():
+        if "thir" not in b or b["crate"] == "metal_invoker":
+            continue      # every library crate: diagnostics are rendered through trait objects the call graph does not follow
+        owner = short(b.get("parent") or b["path"])
+        sites = [c for c in F.exprs(b["thir"], "Call") if short(c.get("fn") or "") == "index" and c.get("self") == "str" and len(c.get("args", [])) > 1]
+        if not sites:
+            continue
+        lets = {}
+        split_args = set()
+        for s in F.walk(b["thir"]):
+            if s.get("k") == "LetStmt" and "init" in s and s.get("pat", {}).get("k") == "Bind":
+                lets[s["pat"]["id"]] = s["init"]
+            if s.get("k") == "Call" and short(s.get("fn") or "") in ("split_at", "is_char_boundary") and len(s.get("args", [])) > 1:
+                v = F.leftmost_var(s["args"][1])
+                if v is not None and F.strip(s["args"][1]).get("k") == "Var":
+                    split_args.add(v["id"])
+
+        def safe(e, depth=0):
+            e = F.strip(e)
+            k = e.get("k")
+            if depth > 8:
+                return False
+            if k == "Lit":
+                return e.get("v") == 0
+            if k == "Var":
+                if e["id"] in split_args:
+                    return True
+                if e["id"] in lets:
+                    return safe(lets[e["id"]], depth + 1)
+                return "found-position" if e.get("_found") else bound_by_find(e)
+            if k == "Cast":
+                return safe(e["e"], depth + 1)
+            if k == "Call":
+                nm = short(e.get("fn") or "")
+                if nm == "len":
+                    return True
+                if nm in ("find", "rfind"):
+                    return True
+                if nm in ("unwrap_or", "unwrap_or_default", "unwrap", "expect"):
+                    return all(safe(a, depth + 1) for a in e["args"])
+                return False
+            if k == "Binary" and e.get("op") == "Add":
+                l, r = F.strip(e["l"]), F.strip(e["r"])
+                if F.lit(r) == ("int", 1) and ascii_find_position(l):
+                    return True
+                return bool(safe(l, depth + 1)) and bool(safe(r, depth + 1)) and F.lit(r) is None and F.lit(l) is None
+            if k == "Match":
+                return all(safe(a["body"], depth + 1) for a in e["arms"])
+            if k == "If":
+                return safe(e["then"], depth + 1) and ("else" in e and safe(e["else"], depth + 1))
+            if k == "Block":
+                return "expr" in e and safe(e["expr"], depth + 1)
+            return False
+
+        found_binds = {}
+        for m in F.exprs(b["thir"], "Match"):
+            sc = F.strip(m["scrut"])
+            if sc.get("k") == "Call" and short(sc.get("fn") or "") in ("find", "rfind"):
+                needle = F.lit(F.strip(sc["args"][1])) if len(sc.get("args", [])) > 1 else None
+                for arm in m["arms"]:
+                    for i_, nm_, path_ in F.pat_binds(arm["pat"]):
+                        found_binds[i_] = needle
+
+        def bound_by_find(v):
+            return v["id"] in found_binds
+
+        def ascii_find_position(e):
+            if e.get("k") == "Var" and e["id"] in found_binds:
+                nd = found_binds[e["id"]]
+                return nd is not None and nd[0] == "char" and len(str(nd[1]).encode()) == 1
+            return False
+        for c in sites:
+            r = F.strip(c["args"][1])
+            if r.get("k") != "Adt":
+                chk.ob("C08.strslice/%s#%d" % (owner, n), False, "str range-index with a range that is not written in place", where(b, c))
+                n += 1
+                continue
+            for fld in r["fields"]:
+                ok = bool(safe(fld["e"]))
+                chk.ob("C08.strslice/%s/%s" % (owner, fld["f"]), ok, "bound is a character boundary by construction" if ok else
+                       "the %s bound of a str slice in %s is a byte position that is not a character boundary by construction (position arithmetic / min / max): "
+                       "with a multi-byte character at that position the slice panics, here while a diagnostic is rendered" % (fld["f"], owner), where(b, c),
+                       sample={"fn": owner, "bound": str(fld["f"])})
+                n += 1
+    chk.floor("C08.floor/str-slices", n, 2, "str slice bounds examined", "workspace")
+
+
+# ------------------------------------------------------------------ admitted kinds vs handled kinds
+
+def rule_admitted_kinds(chk):
+    """A contradiction rule: where a function admits values by an allow-list of scalar types (`TypeLayer::Scalar(X) |
+    .. => {}` against `_ => return Err(..)`) and later matches the evaluated ir::Constant of the same value with a
+    catch-all that aborts, every admitted scalar type must have its constant kind among the handled arms. (The enum
+    definition admits an initialiser of type bool / untyped int / int / uint.)"""
+    f = chk.facts
+    S2C = {"Bool": "Bool", "IntLiteral": "IntLiteral", "Int32": "Int32", "UInt32": "UInt32", "FloatLiteral": "FloatLiteral",
+           "Float16": "Float16", "Float32": "Float32", "Float64": "Float64"}
+    n = 0
+    for b in f.crates["rssl_typer"]["bodies"]:
+        if "thir" not in b or b.get("kind") not in ("Fn", "AssocFn"):
+            continue
+        admitted = None
+        for m in F.exprs(b["thir"], "Match"):
+            if not F.strip(m["scrut"]).get("ty", "").endswith("TypeLayer"):
+                continue
+            rejects = any(F.pat_is_catchall(a["pat"]) and any(x.get("k") == "Return" for x in F.walk(a["body"])) for a in m["arms"])
+            if not rejects:
+                continue
+            for a in m["arms"]:
+                alts = F.pat_alternatives(a["pat"])
+                kinds = []
+                for alt in alts:
+                    if F.pat_variant(alt) == ("TypeLayer", "Scalar"):
+                        inner = F.pat_sub(alt, "0")
+                        if inner and inner.get("k") == "Variant":
+                            kinds.append(inner["variant"])
+                empty = F.strip(a["body"]).get("k") == "Block" and not F.strip(a["body"]).get("stmts") and "expr" not in F.strip(a["body"])
+                if kinds and len(kinds) == len(alts) and empty:
+                    admitted = (kinds, m)
+        if not admitted:
+            continue
+        owner = short(b.get("parent") or b["path"])
+        for m in F.exprs(b["thir"], "Match"):
+            arms = m["arms"]
+            handled = set()
+            aborts = None
+            for a in arms:
+                for alt in F.pat_alternatives(a["pat"]):
+                    pv = F.pat_variant(alt)
+                    if pv and pv[0] == "Constant":
+                        handled.add(pv[1])
+                if F.pat_is_catchall(a["pat"]) and any((c.get("fn") or "").startswith("core::panicking") for c in F.exprs(a["body"], "Call")):
+                    aborts = a
+            if not handled or aborts is None:
+                continue
+            for k in admitted[0]:
+                ck = S2C.get(k, k)
+                ok = ck in handled
+                n += 1
+                chk.ob("C08.kinds/%s/%s" % (owner, k), ok, "admitted type %s: Constant::%s is handled" % (k, ck) if ok else
+                       "%s admits a value of scalar type %s, but the later match over its evaluated constant has no arm for Constant::%s and its catch-all aborts: "
+                       "an accepted program panics" % (owner, k, ck), where(b, aborts), sample={"fn": owner, "admitted": k, "handled": sorted(handled)})
+    chk.floor("C08.floor/admitted-kinds", n, 4, "admitted scalar type x aborting constant match", "rssl_typer")
